@@ -581,6 +581,12 @@ def check_pair(chk, b, B, bdoc, base, payload, graph):
             for e in ([t["extends"]] if t["extends"] else []) + t["comps"]:
                 expect(tpage, e["name"], e["id"], "type extension / component")
                 expect(mpage, e["name"], e["id"], "type extension / component (module page)")
+            if t["extends"] and t["extends"]["perm"] in b.A["display"]:
+                # the inherited type-bound procedures are listed with links to the parent's documentation:
+                # they must be the parent's OWN members, not same-named members of another type of A
+                for c in t["extends"]["kids"]:
+                    if c["kind"] == "bound" and c["perm"] in b.A["display"]:
+                        expect(tpage, c["name"], c["id"], f"inherited binding of {t['extends']['name']}")
         for v in bm["vars"]:
             expect(mpage, v["type"]["name"], v["type"]["id"], "variable of an imported type")
         if graph:
